@@ -433,7 +433,16 @@ class ProgramModel:
                     tree = ast.parse(py)
                 except (DesugarError, SyntaxError) as e:
                     raise AnalysisError(f"cannot desugar/parse {rel}: {e}")
+                from .renames import undo_renames
+                renamed = undo_renames(tree, rel)       # pure renamings of locals (guarded by the shapes of the binding statements)
+                for qn_, mapping_ in renamed.items():
+                    ct_ = ctypes.get(qn_.split(".")[-1])
+                    if isinstance(ct_, dict):
+                        for old_, new_ in mapping_.items():
+                            if old_ in ct_:
+                                ct_[new_] = ct_.pop(old_)
                 self.units[mod] = Unit(mod, p, py, tree, is_pyx=True, ctypes=ctypes)
+                self.units[mod].renamed_locals = renamed
             else:
                 try:
                     tree = ast.parse(src)
